@@ -116,6 +116,12 @@ fn read_case(io: &Io, bytes: &[u8], label: &str, probes: &mut Probes) -> Option<
     let fs = SimFs::new(io);
     let _g = fs.install();
     fs.put(INP, bytes.to_vec());
+    // one case in eight arrives in 1..7-byte pieces, so multi-byte characters are split across read() calls
+    let h = fnv64(bytes);
+    if h % 8 == 0 {
+        fs.plan(INP, FilePlan { read: Policy { chunk_max: 1 + (h >> 8) as usize % 7, eintr_pm: if (h >> 16) % 2 == 0 { 100 } else { 0 }, ..Default::default() }, ..Default::default() });
+        probes.hit("delivered_in_small_pieces");
+    }
     let art = || json!({"damage": label, "text": String::from_utf8_lossy(&bytes[..bytes.len().min(6000)]), "text_len": bytes.len()});
     let t0 = std::time::Instant::now();
     let res = guard(|| LefLibrary::open(INP));
@@ -182,7 +188,7 @@ impl Check for C11 {
         false
     }
     fn rule(&self) -> String {
-        "One run = one valid LEF text (runs 0..11: the repository's macro.lef and the LEF snippets embedded in lef21's tests; others: G-lef renderings, 1 in 3 with non-ASCII comments/names) and, on it: EVERY prefix (cut at every byte; cuts inside a multi-byte character are delivered as raw bytes), EVERY single-token fault for every token of a harness tokenisation (deleted, duplicated, swapped with its neighbour, replaced by END/MACRO/LAYER/PIN/;/a number/an unterminated string/non-ASCII words, non-ASCII appended/prepended/inserted into names, string literals and comments, a non-ASCII comment line placed before the token; quick tier on texts > 1500 bytes: a seeded 1/4 sample of tokens), plus seeded multi-fault and random-text cases; three scale runs read 64 KiB, 256 KiB and 1 MiB texts (valid, cut, unterminated string, one very long name/number/comment, non-ASCII first line) so that super-linear behaviour trips the watchdog. Each case is stored in SimFs and read by the real LefLibrary::open. evaluations counts cases; non-trivial = damaged text differs from the valid one; distinct = distinct damaged-text digests.".into()
+        "One run = one valid LEF text (runs 0..11: the repository's macro.lef and the LEF snippets embedded in lef21's tests; others: G-lef renderings, 1 in 3 with non-ASCII comments/names) and, on it: EVERY prefix (cut at every byte; cuts inside a multi-byte character are delivered as raw bytes), EVERY single-token fault for every token of a harness tokenisation (deleted, duplicated, swapped with its neighbour, replaced by END/MACRO/LAYER/PIN/;/a number/an unterminated string/non-ASCII words, non-ASCII appended/prepended/inserted into names, string literals and comments, a non-ASCII comment line placed before the token; quick tier on texts > 1500 bytes: a seeded 1/4 sample of tokens), plus seeded multi-fault and random-text cases; three scale runs read 64 KiB, 256 KiB and 1 MiB texts (valid, cut, unterminated string, one very long name/number/comment, non-ASCII first line) so that super-linear behaviour trips the watchdog. Each case is stored in SimFs and read by the real LefLibrary::open; one case in eight is delivered in 1..7-byte pieces with EINTR, so multi-byte characters are split across read() calls. evaluations counts cases; non-trivial = damaged text differs from the valid one; distinct = distinct damaged-text digests.".into()
     }
     fn assumptions(&self) -> Vec<String> {
         vec!["the parser performs no I/O after read_to_string, so termination is bounded by wall-clock (100 x (50 ms + 1 us/byte)) and the supervisor watchdog, not by a step counter".into(), "stack overflow / abort are contained by the child process".into(), "exhaustive over the listed fault kinds for the texts explored only".into()]
